@@ -227,6 +227,7 @@ private:
     // Statements //
     //------------//
     virtual Action visitCompoundStatement(const CompoundStatementSyntax*) override;
+    virtual Action visitForStatement(const ForStatementSyntax*) override;
 
     //--------//
     // Common //
